@@ -5,7 +5,7 @@ from __future__ import annotations
 from hypothesis import strategies as st
 
 from vlib import gen_ops
-from vlib.core import Part
+from vlib.core import Part, optimized_part
 from vlib.invariants import structural
 from vlib.ops import Engine, engine_known, flush_excluded
 
@@ -195,4 +195,5 @@ PARTS = [
     Part("histories", run, strategy=hyp_cases, n={"quick": 1500, "thorough": 200000}),
     Part("two-step-clones", run, enum=enum_cases),
     Part("big-trees", run, strategy=big_cases, n={"quick": 400, "thorough": 20000}),
+    optimized_part("C01", ['histories', 'big-trees']),
 ]
